@@ -1,5 +1,271 @@
 import Driver.Util
+import KavaVerif.Model.Earn
+import KavaVerif.Model.Savings
+/-!
+  C11 driver. One self-contained case per line: the implementation's observed pre-state, the
+  operation, the implementation's result class and observed post-state.  Each handler
+  (1) runs the Lean model on the observed pre-state and compares (MISMATCH), and
+  (2) evaluates the property's predicates on the implementation's own observation (PREDFAIL),
+      independently of the model.
+
+  c11.earn   kind v a x vaultOk stratOk acctOk  pre0 pre1  "=>" result payout probe  post0 post1
+             kind ∈ dep | wd | accrue ; v = vault the operation addresses ; a = account index
+             a vault observation is 7 fields: found tot sh av val loose bal
+               (tot, sh = sdk.Dec mantissas; av = GetVaultAccountValue per account, −1 = error)
+             probe = payout of withdrawing the whole account value right after a successful
+                     deposit, executed on a discarded branch (−1: not run / refused)
+  c11.sav    kind a coins supported  pre  "=>" result  post
+             a savings observation is 4 fields: bal(matrix) mod has dep(matrix); rows = accounts
+  c11.savstate  a savings observation (after every operation of any kind)
+-/
 namespace Drv.C11
-/-- handlers of property C11: (command name, handler) -/
-def handlers : List (String × Handler) := []
+open KV
+
+def fn (l : List Int) : Nat → Int := fun a => l.getD a 0
+def sumL (l : List Int) : Int := l.foldl (· + ·) 0
+def idxs (n : Nat) : List Nat := List.range n
+def showB (b : Bool) : String := if b then "1" else "0"
+
+/-! ## earn -/
+
+structure VO where
+  found : Bool
+  tot : Int
+  sh : List Int
+  av : List Int
+  val : Int
+  loose : Int
+  bal : List Int
+deriving BEq
+
+def parseVO (f : List String) (i : Nat) : Option VO :=
+  match bool? (f.getD i ""), int? (f.getD (i+1) ""), ints? (f.getD (i+2) ""), ints? (f.getD (i+3) ""),
+        int? (f.getD (i+4) ""), int? (f.getD (i+5) ""), ints? (f.getD (i+6) "") with
+  | some fo, some tot, some sh, some av, some val, some loose, some bal =>
+    -- −1 (no share record for the account) and 0 are identified
+    some ⟨fo, tot, sh, av.map (fun x => if x < 0 then 0 else x), val, loose, bal⟩
+  | _, _, _, _, _, _, _ => none
+
+def stOf (o : VO) : Earn.St :=
+  { found := o.found, tot := o.tot, sh := fn o.sh, val := o.val, loose := o.loose, bal := fn o.bal }
+
+def pos0 (x : Int) : Int := if x < 0 then 0 else x
+
+/-- predicates of a single observed vault state -/
+def vaultPred (tag : String) (o : VO) : String :=
+  if o.sh.any (· < 0) then predfail "C11_earn_shares_sum" s!"negative-share {tag}"
+  else if o.tot != sumL o.sh then predfail "C11_earn_shares_sum" s!"total-ne-sum {tag}"
+  else if o.found != (o.tot != 0) then predfail "C11_earn_shares_sum" s!"record-vs-total {tag}"
+  else if o.val < 0 then predfail "C11_earn_redeemable_le_value" s!"negative-value {tag}"
+  else if sumL (o.av.map pos0) > o.val then predfail "C11_earn_redeemable_le_value" s!"sum-exceeds-value {tag}"
+  else "ok"
+
+/-- the model's state compared with an observation (n accounts) -/
+def cmpVault (tag : String) (n : Nat) (m : Earn.St) (o : VO) : String :=
+  allOk [expectEq s!"found{tag}" (showB m.found) (showB o.found),
+         expectEq s!"tot{tag}" (toString m.tot) (toString o.tot),
+         expectEq s!"sh{tag}" (showInts ((idxs n).map m.sh)) (showInts o.sh),
+         expectEq s!"val{tag}" (toString m.val) (toString o.val),
+         expectEq s!"loose{tag}" (toString m.loose) (toString o.loose),
+         expectEq s!"bal{tag}" (showInts ((idxs n).map m.bal)) (showInts o.bal)]
+
+/-- the model's `redeemable` against the observed GetVaultAccountValue (−1 = error = no record) -/
+def cmpAv (tag : String) (n : Nat) (o : VO) : String :=
+  let s := stOf o
+  let m := (idxs n).map fun a =>
+    match Earn.convertToAssets s (s.sh a) with
+    | .ok v => v
+    | _ => -1
+  -- an account without any share record errors even when the vault exists; the model has no
+  -- per-account record flag, so −1 and 0 are identified
+  expectEq s!"av{tag}" (showInts (m.map pos0)) (showInts (o.av.map pos0))
+
+def others (n a : Nat) (p q : List Int) : Bool :=
+  (idxs n).all fun b => b == a || p.getD b 0 == q.getD b 0
+
+def handleEarn : Handler := fun f =>
+  if f.length != 39 then badInput "arity" else
+  let kind := f.getD 0 ""
+  match nat? (f.getD 1 ""), nat? (f.getD 2 ""), int? (f.getD 3 ""), bool? (f.getD 4 ""), bool? (f.getD 5 ""),
+        bool? (f.getD 6 ""), parseVO f 7, parseVO f 14, int? (f.getD 23 ""), int? (f.getD 24 ""),
+        parseVO f 25, parseVO f 32 with
+  | some v, some a, some x, some vaultOk, some stratOk, some acctOk, some pre0, some pre1, some payout, some probe,
+    some post0, some post1 =>
+    let result := f.getD 22 ""
+    let n := pre0.sh.length
+    if v > 1 then badInput "vault" else
+    let pre := if v == 0 then pre0 else pre1
+    let post := if v == 0 then post0 else post1
+    let opre := if v == 0 then pre1 else pre0
+    let opost := if v == 0 then post1 else post0
+    -- observed account values agree with the model's conversion on every observed state
+    let avc := allOk [cmpAv "0" n pre0, cmpAv "1" n pre1, cmpAv "0'" n post0, cmpAv "1'" n post1]
+    if avc != "ok" then avc else
+    -- state predicates on every observed post-state
+    let sp := allOk [vaultPred "vault0" post0, vaultPred "vault1" post1]
+    if sp != "ok" then sp else
+    if kind == "accrue" then
+      -- environment step: the model takes the observed growth as its input
+      let chk := fun (tag : String) (p q : VO) =>
+        if q.val < p.val then predfail "C11_accrue_monotone" s!"value-decreased {tag}"
+        else
+          match Earn.step (stOf p) (.accrue (q.val - p.val)) with
+          | .ok m => cmpVault tag n m q
+          | _ => mismatch "accrue" "err" "ok"
+      let r := allOk [chk "0" pre0 post0, chk "1" pre1 post1]
+      if r != "ok" then r
+      else if post0.val != pre0.val then predfail "C11_accrue_monotone" "savings-strategy-value-changed"
+      else "ok"
+    else
+    let s := stOf pre
+    let res := if kind == "dep" then Earn.deposit s a x vaultOk stratOk acctOk
+               else Earn.withdraw s a x vaultOk stratOk
+    let modelCls := match res with | .ok _ => "ok" | .err => "err" | .panic => "panic"
+    if kind != "dep" && kind != "wd" then badInput "kind"
+    else if modelCls != result then mismatch "result" modelCls result
+    else if result == "panic" then predfail "C11_no_panic" kind
+    else if result != "ok" then
+      (if pre0 == post0 && pre1 == post1 then "ok" else predfail "C11_frame" "failed-op-changed-state")
+    else
+    -- (1) model vs implementation
+    let cmp := match res with
+      | .ok m => allOk [cmpVault "" n m post,
+                        (if kind == "wd" then expectEq "payout" (toString (m.bal a - s.bal a)) (toString payout) else "ok")]
+      | _ => "ok"
+    if cmp != "ok" then cmp else
+    -- (2) property predicates on the implementation's own observation
+    let balA := pre.bal.getD a 0
+    let balA' := post.bal.getD a 0
+    let avA := pos0 (pre.av.getD a 0)
+    let avA' := pos0 (post.av.getD a 0)
+    let stranded := !pre.found && pre.val > 0
+    if !(opre == opost) then predfail "C11_frame" "other-vault-changed"
+    else if !(others n a pre.sh post.sh) then predfail "C11_frame" "other-account-shares-changed"
+    else if !(others n a pre.bal post.bal) then predfail "C11_frame" "other-account-balance-changed"
+    else if post.loose != pre.loose then predfail "C11_frame" "module-account-balance-changed"
+    else if kind == "wd" then
+      if balA' - balA != payout then predfail "C11_withdraw_le_value" "payout-ne-balance-change"
+      else if payout > avA then predfail "C11_withdraw_le_value" "above-account-value"
+      else if payout > x then predfail "C11_withdraw_le_value" "above-request"
+      else if payout < 0 then predfail "C11_withdraw_le_value" "negative-payout"
+      else if post.val != pre.val - payout then predfail "C11_strategy_exact" "withdraw"
+      else if post.sh.getD a 0 > pre.sh.getD a 0 then predfail "C11_frame" "withdraw-raised-shares"
+      else "ok"
+    else
+      if balA' != balA - x then predfail "C11_deposit_exact" "balance"
+      else if post.val != pre.val + x then predfail "C11_strategy_exact" "deposit"
+      else if avA' > avA + x then
+        predfail "C11_deposit_withdraw_no_profit" (if stranded then "stranded-value-captured" else "value-gain")
+      else if probe > avA + x then
+        predfail "C11_deposit_withdraw_no_profit" (if stranded then "stranded-value-captured probe" else "value-gain probe")
+      else "ok"
+  | _, _, _, _, _, _, _, _, _, _, _, _ => badInput "parse"
+
+/-! ## savings -/
+
+def matrix? (s : String) : Option (List (List Int)) := (strs s ";").mapM ints?
+def bools? (s : String) : Option (List Bool) := (strs s ",").mapM bool?
+
+structure SO where
+  bal : List (List Int)
+  mod : List Int
+  has : List Bool
+  dep : List (List Int)
+deriving BEq
+
+def parseSO (f : List String) (i : Nat) : Option SO :=
+  match matrix? (f.getD i ""), ints? (f.getD (i+1) ""), bools? (f.getD (i+2) ""), matrix? (f.getD (i+3) "") with
+  | some b, some m, some h, some d => some ⟨b, m, h, d⟩
+  | _, _, _, _ => none
+
+def at2 (m : List (List Int)) (a d : Nat) : Int := (m.getD a []).getD d 0
+
+def sstOf (o : SO) : Savings.St :=
+  { bal := fun a d => at2 o.bal a d, mod := fun d => o.mod.getD d 0, has := fun a => o.has.getD a false,
+    dep := fun a d => at2 o.dep a d }
+
+def coins? (s : String) : Option Savings.Coins :=
+  (strs s ",").mapM fun c =>
+    match c.splitOn ":" with
+    | [d, n] => match nat? d, int? n with
+      | some d, some n => some (d, n)
+      | _, _ => none
+    | _ => none
+
+def savPred (o : SO) : String :=
+  let nA := o.dep.length
+  let nD := o.mod.length
+  if (idxs nA).any (fun a => (idxs nD).any fun d => at2 o.dep a d < 0) then predfail "C11_savings_solvent" "negative-deposit"
+  else if (idxs nD).any (fun d => o.mod.getD d 0 != sumL ((idxs nA).map fun a => at2 o.dep a d)) then
+    predfail "C11_savings_solvent" "module-balance-ne-sum-of-deposits"
+  else if (idxs nA).any (fun a => o.has.getD a false != (idxs nD).any fun d => at2 o.dep a d > 0) then
+    predfail "C11_savings_solvent" "empty-deposit-record"
+  else "ok"
+
+def cmpSav (m : Savings.St) (o : SO) : String :=
+  let nA := o.dep.length
+  let nD := o.mod.length
+  let mat := fun (g : Nat → Nat → Int) => ";".intercalate ((idxs nA).map fun a => showInts ((idxs nD).map (g a)))
+  let mato := fun (x : List (List Int)) => ";".intercalate (x.map showInts)
+  allOk [expectEq "sav.bal" (mat m.bal) (mato o.bal),
+         expectEq "sav.mod" (showInts ((idxs nD).map m.mod)) (showInts o.mod),
+         expectEq "sav.has" (",".intercalate ((idxs nA).map fun a => showB (m.has a))) (",".intercalate (o.has.map showB)),
+         expectEq "sav.dep" (mat m.dep) (mato o.dep)]
+
+def rowsSame (a : Nat) (p q : List (List Int)) : Bool :=
+  (idxs p.length).all fun b => b == a || p.getD b [] == q.getD b []
+
+def handleSav : Handler := fun f =>
+  if f.length != 14 then badInput "arity" else
+  let kind := f.getD 0 ""
+  match nat? (f.getD 1 ""), coins? (f.getD 2 ""), bools? (f.getD 3 ""), parseSO f 4, parseSO f 10 with
+  | some a, some cs, some sup, some pre, some post =>
+    let result := f.getD 9 ""
+    let nD := pre.mod.length
+    let s := sstOf pre
+    let res := if kind == "dep" then Savings.deposit (fun d => sup.getD d false) s a cs
+               else Savings.withdraw (idxs nD) s a cs
+    let modelCls := match res with | .ok _ => "ok" | .err => "err" | .panic => "panic"
+    if kind != "dep" && kind != "wd" then badInput "kind"
+    else if modelCls != result then mismatch "result" modelCls result
+    else if result == "panic" then predfail "C11_no_panic" s!"savings-{kind}"
+    else if result != "ok" then
+      (if pre == post then "ok" else predfail "C11_savings_frame" "failed-op-changed-state")
+    else
+    let cmp := match res with | .ok m => cmpSav m post | _ => "ok"
+    if cmp != "ok" then cmp else
+    let sp := savPred post
+    if sp != "ok" then sp else
+    if !(rowsSame a pre.dep post.dep) then predfail "C11_savings_frame" "other-deposit-changed"
+    else if !(rowsSame a pre.bal post.bal) then predfail "C11_savings_frame" "other-balance-changed"
+    else if (idxs pre.has.length).any (fun b => b != a && pre.has.getD b false != post.has.getD b false) then
+      predfail "C11_savings_frame" "other-record-changed"
+    else
+      -- per denom: what the account received / paid equals what the record and the module moved
+      let bad := (idxs nD).find? fun d =>
+        let req : Option Int := cs.lookup d
+        let dBal := at2 post.bal a d - at2 pre.bal a d
+        let dDep := at2 post.dep a d - at2 pre.dep a d
+        let dMod := post.mod.getD d 0 - pre.mod.getD d 0
+        if kind == "wd" then
+          let want : Int := match req with
+            | some r => if r > at2 pre.dep a d then at2 pre.dep a d else r
+            | none => 0
+          !(dBal == want && dDep == -want && dMod == -want)
+        else
+          let want : Int := req.getD 0
+          !(dBal == -want && dDep == want && dMod == want)
+      match bad with
+      | some d => predfail (if kind == "wd" then "C11_savings_withdraw_exact" else "C11_savings_deposit_exact") s!"denom{d}"
+      | none => "ok"
+  | _, _, _, _, _ => badInput "parse"
+
+def handleSavState : Handler := fun f =>
+  if f.length != 4 then badInput "arity" else
+  match parseSO f 0 with
+  | some o => savPred o
+  | none => badInput "parse"
+
+def handlers : List (String × Handler) :=
+  [("c11.earn", handleEarn), ("c11.sav", handleSav), ("c11.savstate", handleSavState)]
 end Drv.C11
